@@ -9,9 +9,10 @@ import (
 var inventoryJSON []byte
 
 type confirmed struct {
-	Inventory map[string]string `json:"inventory"`
-	Sources   map[string]Source `json:"sources"`
-	Files     map[string]string `json:"files"`
+	Inventory map[string]string        `json:"inventory"`
+	Sources   map[string]Source        `json:"sources"`
+	Files     map[string]string        `json:"files"`
+	Structs   map[string][]StructField `json:"structs"`
 }
 
 func loadConfirmed() confirmed {
@@ -46,4 +47,13 @@ func ConfirmedFiles() map[string]string {
 		return map[string]string{}
 	}
 	return c.Files
+}
+
+// ConfirmedStructs: the struct types of that tree with their fields in order.
+func ConfirmedStructs() map[string][]StructField {
+	c := loadConfirmed()
+	if c.Structs == nil {
+		return map[string][]StructField{}
+	}
+	return c.Structs
 }
